@@ -240,6 +240,10 @@ func init() {
 			strings.Contains(m.Observed, "non-writable non-configurable value changed") ||
 			strings.Contains(m.Observed, "twice")
 	}))
+	engine.RegisterSignature("c07-descriptor-value-read-last", func(m *engine.Mismatch) bool {
+		v, ok := m.Aux["alt:value-last"]
+		return ok && m.Aux["tag"] == "descshape" && m.Observed == v && m.Observed != m.Expected
+	})
 	engine.RegisterSignature("c07-arguments-keep-mapping", state("H9", nil))
 	engine.RegisterSignature("c07-array-length-same-value", func(m *engine.Mismatch) bool {
 		return m.Aux != nil && m.Aux["label"] == "op" && m.Aux["w:H8"] == "TypeError" && m.Observed == "TypeError" && m.Expected == "ok:b:1"
